@@ -112,12 +112,14 @@ def behaviour(retort, rid: str) -> Any:
             return ("dump", repr(retort.dump(obj, Union[Animal, Dog])))
         except Exception as e:  # noqa: BLE001
             return ("dexc", type(e).__name__)
-    if rid in ("ConvPlain", "ConvRecipe"):
+    if rid in ("ConvPlain", "ConvRecipe", "ConvertPlain", "ConvertRecipe"):
         from adaptix import P
         from adaptix.conversion import ConversionRetort, link_constant
         conv_retort = retort.__dict__.setdefault("_vf_conv", ConversionRetort()) if hasattr(retort, "__dict__") else ConversionRetort()
-        recipe = [link_constant(P[CDst].b, value=99)] if rid == "ConvRecipe" else []
+        recipe = [link_constant(P[CDst].b, value=99)] if rid.endswith("Recipe") else []
         try:
+            if rid.startswith("Convert"):
+                return ("conv", repr(conv_retort.convert(CSrc(1, 2), CDst, recipe=recipe)))
             return ("conv", repr(conv_retort.get_converter(CSrc, CDst, recipe=recipe)(CSrc(1, 2))))
         except Exception as e:  # noqa: BLE001
             return ("cexc", type(e).__name__)
